@@ -8,3 +8,13 @@ Proof. exact partition_free. Qed.
 Check C09_chunked_partition_free : forall sign declared seed frames te,
   run sign declared seed frames te = run sign declared seed [concat frames] te.
 Print Assumptions C09_chunked_partition_free.
+
+(* POST forms: the file part delivered to the backend is a function of the concatenation of the frames - two framings of
+   the same bytes deliver the same file - whenever the closing delimiter is there *)
+From S3V Require Import model.Multipart proofs.MultipartProofs.
+Theorem C09_file_stream_partition_free : forall boundary r1 l1 r2 l2 terr1 terr2 i,
+  let pat := CR :: LF :: 45%N :: 45%N :: boundary in
+  r1 ++ concat l1 = r2 ++ concat l2 -> find_pat pat (r1 ++ concat l1) = Some i ->
+  file_stream boundary r1 l1 terr1 = file_stream boundary r2 l2 terr2.
+Proof. exact file_stream_partition_free. Qed.
+Print Assumptions C09_file_stream_partition_free.
